@@ -140,6 +140,12 @@ def run_session(col, kind, fault, puts, cut=1, reads=(), in_body=None, tear=0):
                 for n, (k, v) in enumerate(puts):
                     if fault in ("atBody", "atBodyBase") and n == cut:
                         raise (Injected("body") if fault == "atBody" else KeyboardInterrupt())
+                    if fault == "badValueCaught" and not isinstance(v, bytes):
+                        try:
+                            col[k] = v
+                        except Exception:
+                            pass                     # user code catches the failing put and carries on
+                        continue
                     col[k] = v
                 if fault in ("atBody", "atBodyBase") and cut >= len(puts):
                     raise (Injected("body") if fault == "atBody" else KeyboardInterrupt())
